@@ -115,6 +115,13 @@ impl Out {
         self.filter.is_some()
     }
     fn emit(&mut self, mut v: Value) {
+        // HX_OPS = comma list of operation names: only those are logged (the random stream is not affected)
+        if let Ok(l) = std::env::var("HX_OPS") {
+            if !l.split(',').any(|x| x == v["op"].as_str().unwrap_or("")) {
+                self.n += 1;
+                return;
+            }
+        }
         if let Some(f) = &self.filter {
             for key in ["k", "op", "sp", "form", "ty"] {
                 // a logged panic has no spelling: any spelling of that form matches
@@ -504,6 +511,134 @@ fn exec_conv(o: &mut Out, sty: &str, dty: &str, how: &str, bits: &[u64]) {
     o.emit(ev);
 }
 
+// ------------------------------------------------------------------------------------------ polynomial accuracy (Trace_Poly)
+/// finite value with a moderate exponent (no overflow / underflow in products of four) and a random significand
+fn rnd_mod(r: &mut Rng, is32: bool) -> u64 {
+    let (mb, bias) = if is32 { (23u32, 127i64) } else { (52u32, 1023i64) };
+    let s = r.below(2);
+    let e = match r.below(8) { 0 => 0, 1 => r.below(25) as i64 - 12, _ => r.below(7) as i64 - 3 };
+    let frac = match r.below(6) { 0 => 0, 1 => 1u64 << (mb - 1), _ => r.next() } & ((1u64 << mb) - 1);
+    if r.below(40) == 0 { return s << (if is32 { 31 } else { 63 }); }       // an exact zero now and then
+    (s << (if is32 { 31 } else { 63 })) | (((bias + e) as u64) << mb) | frac
+}
+macro_rules! poly_family {
+    ($o:ident, $r:ident, $S:ident, $is32:expr, $fm:expr, $M2:ident, $M3:ident, $M4:ident, $V2:ident, $V3:ident, $V4:ident, $Q:ident, $A2:ident, $A3:ident, [$(($M3x:ident, $V3x:ident)),*]) => {{
+        let is32 = $is32;
+        let rv = |r: &mut Rng, n: usize| -> Vec<$S> { (0..n).map(|_| <$S>::from_bits(rnd_mod(r, is32) as _)).collect() };
+        let w = |x: $S| -> Value { wf(x.to_bits() as u64, is32) };
+        let wv = |v: &[$S]| -> Value { Value::Array(v.iter().map(|x| w(*x)).collect()) };
+        let wm = |v: &[$S], n: usize| -> Value { Value::Array(v.chunks(n).map(|c| wv(c)).collect()) };
+        // ---- vectors
+        let (a2, b2, a3, b3, a4, b4) = (rv($r, 2), rv($r, 2), rv($r, 3), rv($r, 3), rv($r, 4), rv($r, 4));
+        $o.emit(json!({"k": "poly", "op": "dot", "f": $fm, "ty": stringify!($V2), "a": wv(&a2), "b": wv(&b2), "got": w($V2::from_slice(&a2).dot($V2::from_slice(&b2)))}));
+        $o.emit(json!({"k": "poly", "op": "perp_dot", "f": $fm, "ty": stringify!($V2), "a": wv(&a2), "b": wv(&b2), "got": w($V2::from_slice(&a2).perp_dot($V2::from_slice(&b2)))}));
+        $o.emit(json!({"k": "poly", "op": "dot", "f": $fm, "ty": stringify!($V3), "a": wv(&a3), "b": wv(&b3), "got": w($V3::from_slice(&a3).dot($V3::from_slice(&b3)))}));
+        $o.emit(json!({"k": "poly", "op": "cross", "f": $fm, "ty": stringify!($V3), "a": wv(&a3), "b": wv(&b3), "got": wv(&$V3::from_slice(&a3).cross($V3::from_slice(&b3)).to_array())}));
+        $o.emit(json!({"k": "poly", "op": "dot", "f": $fm, "ty": stringify!($V4), "a": wv(&a4), "b": wv(&b4), "got": w($V4::from_slice(&a4).dot($V4::from_slice(&b4)))}));
+        $o.emit(json!({"k": "poly", "op": "dot", "f": $fm, "ty": stringify!($V4), "sp": "length_squared", "a": wv(&a4), "b": wv(&a4), "got": w($V4::from_slice(&a4).length_squared())}));
+        $(
+            $o.emit(json!({"k": "poly", "op": "dot", "f": $fm, "ty": stringify!($V3x), "a": wv(&a3), "b": wv(&b3), "got": w($V3x::from_slice(&a3).dot($V3x::from_slice(&b3)))}));
+            $o.emit(json!({"k": "poly", "op": "cross", "f": $fm, "ty": stringify!($V3x), "a": wv(&a3), "b": wv(&b3), "got": wv(&$V3x::from_slice(&a3).cross($V3x::from_slice(&b3)).to_array())}));
+        )*
+        // ---- square matrices
+        let (m2a, m2b, m3a, m3b, m4a, m4b) = (rv($r, 4), rv($r, 4), rv($r, 9), rv($r, 9), rv($r, 16), rv($r, 16));
+        {
+            let (a, b) = ($M2::from_cols_slice(&m2a), $M2::from_cols_slice(&m2b));
+            $o.emit(json!({"k": "poly", "op": "mat_mul", "f": $fm, "ty": stringify!($M2), "a": wm(&m2a, 2), "b": wm(&m2b, 2), "got": wm(&(a * b).to_cols_array(), 2)}));
+            $o.emit(json!({"k": "poly", "op": "mat_mul", "f": $fm, "ty": stringify!($M2), "sp": "mul_mat2", "a": wm(&m2a, 2), "b": wm(&m2b, 2), "got": wm(&a.mul_mat2(&b).to_cols_array(), 2)}));
+            $o.emit(json!({"k": "poly", "op": "mul_vec", "f": $fm, "ty": stringify!($M2), "m": wm(&m2a, 2), "v": wv(&a2), "got": wv(&(a * $V2::from_slice(&a2)).to_array())}));
+            $o.emit(json!({"k": "poly", "op": "det", "f": $fm, "ty": stringify!($M2), "m": wm(&m2a, 2), "got": w(a.determinant())}));
+        }
+        {
+            let (a, b) = ($M3::from_cols_slice(&m3a), $M3::from_cols_slice(&m3b));
+            $o.emit(json!({"k": "poly", "op": "mat_mul", "f": $fm, "ty": stringify!($M3), "a": wm(&m3a, 3), "b": wm(&m3b, 3), "got": wm(&(a * b).to_cols_array(), 3)}));
+            $o.emit(json!({"k": "poly", "op": "mul_vec", "f": $fm, "ty": stringify!($M3), "m": wm(&m3a, 3), "v": wv(&a3), "got": wv(&(a * $V3::from_slice(&a3)).to_array())}));
+            $o.emit(json!({"k": "poly", "op": "det", "f": $fm, "ty": stringify!($M3), "m": wm(&m3a, 3), "got": w(a.determinant())}));
+            // 2D homogeneous transforms: linear 2x2 block, translation = third column
+            let lin: Vec<$S> = vec![m3a[0], m3a[1], m3a[3], m3a[4]];
+            let aff = $M3::from_cols_slice(&[m3a[0], m3a[1], 0.0, m3a[3], m3a[4], 0.0, m3a[6], m3a[7], 1.0]);
+            $o.emit(json!({"k": "poly", "op": "affine_point", "f": $fm, "ty": stringify!($M3), "sp": "transform_point2", "m": wm(&lin, 2), "t": wv(&[m3a[6], m3a[7]]), "v": wv(&a2),
+                           "got": wv(&aff.transform_point2($V2::from_slice(&a2)).to_array())}));
+            $o.emit(json!({"k": "poly", "op": "mul_vec", "f": $fm, "ty": stringify!($M3), "sp": "transform_vector2", "m": wm(&lin, 2), "v": wv(&a2),
+                           "got": wv(&aff.transform_vector2($V2::from_slice(&a2)).to_array())}));
+        }
+        $(
+            {
+                let (a, b) = ($M3x::from_cols_slice(&m3a), $M3x::from_cols_slice(&m3b));
+                $o.emit(json!({"k": "poly", "op": "mat_mul", "f": $fm, "ty": stringify!($M3x), "a": wm(&m3a, 3), "b": wm(&m3b, 3), "got": wm(&(a * b).to_cols_array(), 3)}));
+                $o.emit(json!({"k": "poly", "op": "mul_vec", "f": $fm, "ty": stringify!($M3x), "sp": "Vec3A", "m": wm(&m3a, 3), "v": wv(&a3), "got": wv(&(a * $V3x::from_slice(&a3)).to_array())}));
+                $o.emit(json!({"k": "poly", "op": "mul_vec", "f": $fm, "ty": stringify!($M3x), "sp": "Vec3", "m": wm(&m3a, 3), "v": wv(&a3), "got": wv(&(a * $V3::from_slice(&a3)).to_array())}));
+                $o.emit(json!({"k": "poly", "op": "det", "f": $fm, "ty": stringify!($M3x), "m": wm(&m3a, 3), "got": w(a.determinant())}));
+            }
+        )*
+        {
+            let (a, b) = ($M4::from_cols_slice(&m4a), $M4::from_cols_slice(&m4b));
+            $o.emit(json!({"k": "poly", "op": "mat_mul", "f": $fm, "ty": stringify!($M4), "a": wm(&m4a, 4), "b": wm(&m4b, 4), "got": wm(&(a * b).to_cols_array(), 4)}));
+            $o.emit(json!({"k": "poly", "op": "mul_vec", "f": $fm, "ty": stringify!($M4), "m": wm(&m4a, 4), "v": wv(&a4), "got": wv(&(a * $V4::from_slice(&a4)).to_array())}));
+            $o.emit(json!({"k": "poly", "op": "det", "f": $fm, "ty": stringify!($M4), "m": wm(&m4a, 4), "got": w(a.determinant())}));
+            // affine 4x4: last row (0, 0, 0, 1)
+            let mut af = m4a.clone();
+            af[3] = 0.0; af[7] = 0.0; af[11] = 0.0; af[15] = 1.0;
+            let lin: Vec<$S> = vec![af[0], af[1], af[2], af[4], af[5], af[6], af[8], af[9], af[10]];
+            let t: Vec<$S> = vec![af[12], af[13], af[14]];
+            let m = $M4::from_cols_slice(&af);
+            $o.emit(json!({"k": "poly", "op": "affine_point", "f": $fm, "ty": stringify!($M4), "sp": "transform_point3", "m": wm(&lin, 3), "t": wv(&t), "v": wv(&a3),
+                           "got": wv(&m.transform_point3($V3::from_slice(&a3)).to_array())}));
+            $o.emit(json!({"k": "poly", "op": "mul_vec", "f": $fm, "ty": stringify!($M4), "sp": "transform_vector3", "m": wm(&lin, 3), "v": wv(&a3),
+                           "got": wv(&m.transform_vector3($V3::from_slice(&a3)).to_array())}));
+            $(
+                $o.emit(json!({"k": "poly", "op": "affine_point", "f": $fm, "ty": stringify!($M4), "sp": "transform_point3a", "m": wm(&lin, 3), "t": wv(&t), "v": wv(&a3),
+                               "got": wv(&m.transform_point3a($V3x::from_slice(&a3)).to_array())}));
+                $o.emit(json!({"k": "poly", "op": "mul_vec", "f": $fm, "ty": stringify!($M4), "sp": "transform_vector3a", "m": wm(&lin, 3), "v": wv(&a3),
+                               "got": wv(&m.transform_vector3a($V3x::from_slice(&a3)).to_array())}));
+            )*
+            // ---- affine types
+            let a3f: Vec<$S> = lin.iter().chain(t.iter()).copied().collect();
+            let b3f = rv($r, 12);
+            let (aa, ab) = ($A3::from_cols_slice(&a3f), $A3::from_cols_slice(&b3f));
+            $o.emit(json!({"k": "poly", "op": "affine_point", "f": $fm, "ty": stringify!($A3), "sp": "transform_point3", "m": wm(&lin, 3), "t": wv(&t), "v": wv(&a3),
+                           "got": wv(&aa.transform_point3($V3::from_slice(&a3)).to_array())}));
+            $o.emit(json!({"k": "poly", "op": "mul_vec", "f": $fm, "ty": stringify!($A3), "sp": "transform_vector3", "m": wm(&lin, 3), "v": wv(&a3),
+                           "got": wv(&aa.transform_vector3($V3::from_slice(&a3)).to_array())}));
+            // affine * affine: linear part is a matrix product, translation is the first applied to the second's translation
+            let prod = (aa * ab).to_cols_array();
+            $o.emit(json!({"k": "poly", "op": "mat_mul", "f": $fm, "ty": stringify!($A3), "sp": "affine*affine linear", "a": wm(&lin, 3), "b": wm(&b3f[0..9], 3), "got": wm(&prod[0..9], 3)}));
+            $o.emit(json!({"k": "poly", "op": "affine_point", "f": $fm, "ty": stringify!($A3), "sp": "affine*affine translation", "m": wm(&lin, 3), "t": wv(&t), "v": wv(&b3f[9..12]), "got": wv(&prod[9..12])}));
+            let a2f: Vec<$S> = vec![m2a[0], m2a[1], m2a[2], m2a[3], a2[0], a2[1]];
+            let b2f = rv($r, 6);
+            let (ba, bb) = ($A2::from_cols_slice(&a2f), $A2::from_cols_slice(&b2f));
+            $o.emit(json!({"k": "poly", "op": "affine_point", "f": $fm, "ty": stringify!($A2), "sp": "transform_point2", "m": wm(&m2a, 2), "t": wv(&a2), "v": wv(&b2),
+                           "got": wv(&ba.transform_point2($V2::from_slice(&b2)).to_array())}));
+            $o.emit(json!({"k": "poly", "op": "mul_vec", "f": $fm, "ty": stringify!($A2), "sp": "transform_vector2", "m": wm(&m2a, 2), "v": wv(&b2),
+                           "got": wv(&ba.transform_vector2($V2::from_slice(&b2)).to_array())}));
+            let prod = (ba * bb).to_cols_array();
+            $o.emit(json!({"k": "poly", "op": "mat_mul", "f": $fm, "ty": stringify!($A2), "sp": "affine*affine linear", "a": wm(&m2a, 2), "b": wm(&b2f[0..4], 2), "got": wm(&prod[0..4], 2)}));
+            $o.emit(json!({"k": "poly", "op": "affine_point", "f": $fm, "ty": stringify!($A2), "sp": "affine*affine translation", "m": wm(&m2a, 2), "t": wv(&a2), "v": wv(&b2f[4..6]), "got": wv(&prod[4..6])}));
+        }
+        // ---- quaternions (unit operands: the documented domain of rotation)
+        {
+            let qa = $Q::from_slice(&a4).normalize();
+            let qb = $Q::from_slice(&b4).normalize();
+            if qa.is_finite() && qb.is_finite() {
+                let (la, lb) = (qa.to_array(), qb.to_array());
+                $o.emit(json!({"k": "poly", "op": "quat_mul", "f": $fm, "ty": stringify!($Q), "a": wv(&la), "b": wv(&lb), "got": wv(&(qa * qb).to_array())}));
+                $o.emit(json!({"k": "poly", "op": "quat_mul", "f": $fm, "ty": stringify!($Q), "sp": "mul_quat", "a": wv(&la), "b": wv(&lb), "got": wv(&qa.mul_quat(qb).to_array())}));
+                $o.emit(json!({"k": "poly", "op": "quat_rot", "f": $fm, "ty": stringify!($Q), "sp": "q * Vec3", "a": wv(&la), "v": wv(&a3), "got": wv(&(qa * $V3::from_slice(&a3)).to_array())}));
+                $(
+                    $o.emit(json!({"k": "poly", "op": "quat_rot", "f": $fm, "ty": stringify!($Q), "sp": "q * Vec3A", "a": wv(&la), "v": wv(&a3), "got": wv(&(qa * $V3x::from_slice(&a3)).to_array())}));
+                )*
+            }
+        }
+    }};
+}
+fn rec_poly(o: &mut Out, r: &mut Rng, draws: u64) {
+    use glam::*;
+    for _ in 0..draws {
+        poly_family!(o, r, f32, true, 32, Mat2, Mat3, Mat4, Vec2, Vec3, Vec4, Quat, Affine2, Affine3A, [(Mat3A, Vec3A)]);
+        poly_family!(o, r, f64, false, 64, DMat2, DMat3, DMat4, DVec2, DVec3, DVec4, DQuat, DAffine2, DAffine3, []);
+    }
+}
+
 // ------------------------------------------------------------------------------------------ replay of one event
 fn unlimbs(v: &[Value]) -> u128 {
     let mut m: u128 = 0;
@@ -620,6 +755,7 @@ fn main() {
             }
         }
         "conv" => rec_conv(&mut o, &mut r, draws),
+        "poly" => rec_poly(&mut o, &mut r, draws),
         _ => panic!("mode"),
     }
     o.w.flush().unwrap();
